@@ -51,6 +51,39 @@ class Ptr:
         return hash((self.base, self.off))
 
 
+class Cx:
+    """std::complex over polynomials."""
+    __slots__ = ('re', 'im')
+
+    def __init__(self, re, im):
+        self.re, self.im = re, im
+
+    @staticmethod
+    def of(v):
+        return v if isinstance(v, Cx) else Cx(v, Poly())
+
+    def __add__(self, o):
+        o = Cx.of(o)
+        return Cx(self.re + o.re, self.im + o.im)
+
+    def __sub__(self, o):
+        o = Cx.of(o)
+        return Cx(self.re - o.re, self.im - o.im)
+
+    def __neg__(self):
+        return Cx(-self.re, -self.im)
+
+    def __mul__(self, o):
+        o = Cx.of(o)
+        return Cx(self.re * o.re - self.im * o.im, self.re * o.im + self.im * o.re)
+
+    def div_real(self, p, ev):
+        if p.is_const() and p.const_value() != 0:
+            return Cx(self.re.scale(1 / p.const_value()), self.im.scale(1 / p.const_value()))
+        inv = ev.pure('inv', [p])
+        return Cx(self.re * inv, self.im * inv)
+
+
 class Poly:
     __slots__ = ('t',)
 
@@ -484,6 +517,8 @@ class SymEval:
             for d in n['decls']:
                 if d.get('init', -1) >= 0:
                     self.env[('v', d['d'])] = self.ev(fr, d['init'])
+                elif 'complex<' in d.get('t', ''):
+                    self.env[('v', d['d'])] = Cx(Poly(), Poly())
         elif k == 'IfStmt':
             if self.cond(fr, n['cond']):
                 self.ex(fr, n.get('then', -1))
@@ -707,6 +742,14 @@ class SymEval:
         if k == 'CXXDefaultArgExpr':
             return Poly.sym(self.newsym('default'))
         if k in ('CXXConstructExpr', 'CXXTemporaryObjectExpr'):
+            if 'complex<' in n.get('t', ''):
+                vals = [self.ev(fr, a) for a in n.get('args', []) if f.nodes[a]['k'] != 'CXXDefaultArgExpr']
+                if not vals:
+                    return Cx(Poly(), Poly())
+                if len(vals) == 1:
+                    return Cx.of(vals[0]) if isinstance(vals[0], (Poly, Cx)) else Poly.sym(self.newsym('object'))
+                if all(isinstance(v, Poly) for v in vals[:2]):
+                    return Cx(vals[0], vals[1])
             if len(n.get('args', [])) == 1:
                 return self.ev(fr, n['args'][0])
             return Poly.sym(self.newsym('object'))
@@ -823,6 +866,10 @@ class SymEval:
         off = 1 if (n.get('ckind') == 'operator' and ce.get('method')) else 0
         if q in self.summaries:
             return self.summaries[q](self, fr, n, args[off:])
+        if not ce.get('inrepo') and (name in ('real', 'imag', 'abs', 'norm', 'conj') or str(name).startswith('operator')):
+            r = self.complex_call(fr, nid, n, ce, name, args, off)
+            if r is not NotImplemented:
+                return r
         if n['k'] == 'CXXOperatorCallExpr' and name == 'operator[]' and len(args) == 2 and not ce.get('inrepo'):
             try:
                 return self.read(self.lvalue(fr, nid))
@@ -940,6 +987,70 @@ class SymEval:
         except _Return as r:
             return r.val
         return None
+
+    def complex_call(self, fr, nid, n, ce, name, args, off):
+        """operations of std::complex when an operand is a Cx; NotImplemented otherwise."""
+        f = fr.fn
+        if n['k'] == 'CXXMemberCallExpr' and name in ('real', 'imag') and n.get('obj', -1) >= 0 and not args:
+            v = self.ev(fr, n['obj'])
+            if isinstance(v, Cx):
+                return v.re if name == 'real' else v.im
+            return NotImplemented
+        if n['k'] == 'CXXOperatorCallExpr' and ce.get('method') and name in ('operator=', 'operator+=', 'operator-=',
+                                                                            'operator*=', 'operator/=') and len(args) == 2:
+            try:
+                key = self.lvalue(fr, args[0])
+            except Unsupported:
+                return NotImplemented
+            cur = self.env.get(key)
+            rhs = self.ev(fr, args[1])
+            if not (isinstance(cur, Cx) or isinstance(rhs, Cx)) or not isinstance(rhs, (Cx, Poly)):
+                return NotImplemented
+            if name == 'operator=':
+                nv = Cx.of(rhs)
+            else:
+                if not isinstance(cur, Cx):
+                    return NotImplemented
+                if name == 'operator+=':
+                    nv = cur + rhs
+                elif name == 'operator-=':
+                    nv = cur - rhs
+                elif name == 'operator*=':
+                    nv = cur * rhs
+                else:
+                    if isinstance(rhs, Cx):
+                        return NotImplemented
+                    nv = cur.div_real(rhs, self)
+            self.env[key] = nv
+            return nv
+        if name in ('operator+', 'operator-', 'operator*', 'operator/') and len(args) == 2:
+            a, b = self.ev(fr, args[0]), self.ev(fr, args[1])
+            if not (isinstance(a, Cx) or isinstance(b, Cx)) or not all(isinstance(v, (Cx, Poly)) for v in (a, b)):
+                return NotImplemented
+            if name == 'operator+':
+                return Cx.of(a) + b
+            if name == 'operator-':
+                return Cx.of(a) - b
+            if name == 'operator*':
+                return Cx.of(a) * b
+            if isinstance(b, Poly):
+                return Cx.of(a).div_real(b, self)
+            return NotImplemented
+        if name == 'operator-' and len(args) == 1:
+            a = self.ev(fr, args[0])
+            return -a if isinstance(a, Cx) else NotImplemented
+        if name in ('abs', 'norm') and len(args) == 1:
+            a = self.ev(fr, args[0])
+            if isinstance(a, Cx):
+                return self.pure('c' + name, [a.re, a.im])
+            if name == 'abs' and isinstance(a, Poly):
+                if a.is_const():
+                    return Poly.const(abs(a.const_value()))
+                r = self.pure('abs', [a])
+                (k, _), = r.t.items()
+                self.absof[k[0][0]] = a
+                return r
+        return NotImplemented
 
     def opaque(self, fr, n, args, ce):
         """a call that is not interpreted: deterministic, so its result and its by-reference results are symbols
